@@ -8,8 +8,10 @@ the formula returned by the command line tool equals (variables, names, clauses)
 the documented library call on the same numbers and the same graphs; `-T` chains equal the left fold of the
 library transformations; kthlist2pebbling equals `peb`; -q / -v / -of select the variant and nothing else.
 `session`: several command lines run one after the other in ONE process over the same graph file(s) — the same file
-named twice on one line, in consecutive runs, by both tools — with graph modifiers on some occurrences; each run against
-the library call on graphs obtained independently of the command line's file reader (readGraph / a private copy).
+(or the same
+deterministic construction) named twice on one line, in consecutive runs, by both tools — with graph modifiers on some
+occurrences; each run against the library call on graphs obtained independently of the command line's graph-argument
+machinery (readGraph / the library constructor / a private copy for the modifiers).
 """
 import io
 import os
@@ -274,11 +276,42 @@ SESSION_MODS = {"plantclique": [["0"], ["2"], ["3"]], "addedges": [["0"], ["1"],
                 "plantbiclique": [["0", "0"], ["1", "2"], ["2", "2"]]}
 
 
-def gen_session(rng):
+# deterministic constructions a graph slot may name instead of a file, with the library's own way to the same graph
+SESSION_CONSTRUCTIONS = {
+    "simple": [["grid", "2", "3"], ["torus", "3", "3"], ["complete", "4"], ["empty", "4"], ["grid", "5"]],
+    "bipartite": [["complete", "3", "4"], ["empty", "3", "3"], ["shift", "4", "3", "0", "1"]],
+    "dag": [["pyramid", "2"], ["tree", "2"], ["path", "4"]],
+}
+
+
+def library_construction(kind, spec):
+    import networkx
+    from cnfgen import graphs as g
+    name, a = spec[0], [int(x) for x in spec[1:]]
+    if kind == "simple":
+        if name in ("grid", "torus"):
+            return g.Graph.from_networkx(networkx.grid_graph(a, periodic=(name == "torus")))
+        return g.Graph.complete_graph(a[0]) if name == "complete" else g.Graph.empty_graph(a[0])
+    if kind == "bipartite":
+        if name == "shift":
+            return g.bipartite_shift(a[0], a[1], a[2:])
+        return g.CompleteBipartiteGraph(a[0], a[1]) if name == "complete" else g.BipartiteGraph(a[0], a[1])
+    return {"pyramid": g.dag_pyramid, "tree": g.dag_complete_binary_tree, "path": g.dag_path}[name](a[0])
+
+
+def gen_session(rng, i=None):
+    """`i`: position in the run's list of sessions — kinds, files and constructions are taken in turn, so that each file
+    format and each construction is the session's main graph argument a few times in every run"""
     from cnfgen.clitools import graph_args
-    kind = rng.choice(["simple", "simple", "simple", "bipartite", "dag"])
+    if i is None:
+        i = rng.randrange(10 ** 6)
+    kind = ["simple", "bipartite", "simple", "dag", "simple"][i % 5]
     names = sorted(SESSION_FILES[kind])
-    main = rng.choice(names)
+    j = i // 10
+    if (i // 5) % 2 == 0:
+        main_spec = ["@" + names[j % len(names)]]
+    else:
+        main_spec = list(SESSION_CONSTRUCTIONS[kind][j % len(SESSION_CONSTRUCTIONS[kind])])
     mods = [o for o in graph_args.options[kind] if o != "save"]
     runs = []
     for _ in range(rng.randint(2, 4)):
@@ -288,7 +321,7 @@ def gen_session(rng):
         for slot in ("A", "B"):
             if slot not in argv_t:
                 continue
-            spec = ["@" + (main if rng.random() < .8 else rng.choice(names))]
+            spec = list(main_spec) if rng.random() < .8 else ["@" + rng.choice(names)]
             if mods and rng.random() < .45:
                 o = rng.choice(mods)
                 a = rng.choice(SESSION_MODS.get(o, [["1"]]))
@@ -306,7 +339,7 @@ def gen_session(rng):
 
 def run_session(info):
     """None, or the first run whose formula differs from the library's"""
-    from cnfgen.graphs import readGraph
+    from cnfgen.graphs import readGraph, writeGraph
     tmp = tempfile.mkdtemp(prefix="verif-c17s-")
     copies = [0]
     try:
@@ -321,6 +354,18 @@ def run_session(info):
             """the graph a graph argument names, obtained without the command line's file reader: the documented
             library reader for a bare file; the modifiers are applied to a private, single-use copy of the file"""
             spec = a["spec"]
+            if not spec[0].startswith("@"):
+                # a construction: the library's own constructor; modifiers are applied to a private file holding it
+                k = 1
+                while k < len(spec) and spec[k] not in SESSION_MODS:
+                    k += 1
+                G0 = library_construction(a["g"], spec[:k])
+                if k == len(spec):
+                    return G0
+                copies[0] += 1
+                cp = os.path.join(tmp, "built-copy{}.kthlist".format(copies[0]))
+                writeGraph(G0, cp, a["g"])
+                return quiet(lambda: make_graph_from_spec(a["g"], [cp] + spec[k:]))
             if len(spec) == 1:
                 return quiet(lambda: readGraph(real(spec[0]), a["g"]))
             copies[0] += 1
@@ -371,7 +416,7 @@ def build(suite, info):
         first = info["runs"][0]
         full = [first["tool"], "-q", "--seed", str(first["seed"])] + first["argv"]
         kinds = sorted({t for r in info["runs"] for t in r["argv"] if t in SESSION_MODS})
-        twice = any(sum(t.startswith("@") for t in r["argv"]) > 1 for r in info["runs"])
+        twice = any(sum(1 for a in r["lib"]["args"] if isinstance(a, dict)) > 1 for r in info["runs"])
         return Case(suite, split_req(full), lambda: split_impl(full), lambda: run_session(info),
                     cls=("twice-on-a-line" if twice else "consecutive") + (":" + "+".join(kinds) if kinds else ""), info=info)
     if suite in ("cli_vs_lib", "chain", "k2p", "format"):
@@ -618,8 +663,8 @@ def cases(ctx):
                         cls=cmd[0], info={"argv": full}))
     # ---- sessions: consecutive in-process runs over the same graph files, modifiers on some occurrences
     rngs = common.sub_rng(seed, "C17-session")
-    for _ in range(40 if tier == "quick" else 500):
-        out.append(build("session", gen_session(rngs)))
+    for i in range(60 if tier == "quick" else 500):
+        out.append(build("session", gen_session(rngs, i)))
     # ---- generator events of a seeded run: seed at parse time, seed again before the build (model: phase3)
     from harness.props import C07 as H07
     for cmd in (["randkcnf", "3", "6", "5"], ["kcolor", "3", "gnp", "6", ".5", "-T", "shuffle"], ["php", "5", "4", "2"]):
